@@ -1047,7 +1047,18 @@ pub fn run(out: &mut Out, rng: &mut Rng, thorough: bool) {
 		}
 	}
 	if thorough {
-		// width 3 at depth ≤ 2 (and depth 3 below sequences only)
+		// depth 3 × width 3 with scalar map keys (composite keys are covered
+		// at width 2 above)
+		let deep = shapes(3, 3, &leaves[..1], 1);
+		ctx.out.counters.insert("transcode.exhaustive.shapes_depth3_width3".to_string(), deep.len() as u64);
+		for t in &deep {
+			ctx.all_scripts(t, false, false);
+			for planted in plant_all(t, 3) {
+				ctx.all_scripts(&planted, false, false);
+				ctx.out.count("transcode.exhaustive.planted");
+			}
+		}
+		// width 3 at depth ≤ 2 over two leaves, both paths
 		let wide = shapes(2, 3, &leaves, 1);
 		ctx.out.counters.insert("transcode.exhaustive.shapes_wide".to_string(), wide.len() as u64);
 		for t in &wide {
